@@ -108,7 +108,7 @@ func runRef(w *work, c *jqrun.Compiled) {
 		v, _ := jqrun.DecodeJSON(s)
 		ins = append(ins, v)
 	}
-	g := c.Run(in, ins, 2*time.Second)
+	g := c.Run(in, ins, time.Second)
 	w.ev["gj"] = g.Out
 	w.ev["gj_side"] = g.Side
 	w.ev["gj_stderr"] = jqrun.Cps(g.Stderr)
@@ -194,38 +194,56 @@ func replay(cases []tcase, singleEvery int) []event {
 	compiled := map[string]*jqrun.Compiled{}
 	skip := map[string]bool{}
 	var batchable []string
-	for _, p := range progs {
-		c, cerr := jqrun.GojqCompile(p)
-		if c == nil {
-			for _, i := range byProg[p] {
-				ws[i].ev["gj_compile"] = cerr
-			}
-			continue
-		}
-		compiled[p] = c
-		for _, i := range byProg[p] {
-			runRef(ws[i], c)
-		}
-		// a Go panic of the bare engine is a defect of the dependency (recorded, not judged); fq would only repeat it
-		panicked := false
-		for _, i := range byProg[p] {
-			if g, ok := ws[i].ev["gj"].([]jqrun.Outcome); ok && len(g) > 0 && g[len(g)-1]["k"] == "x" {
-				if why, _ := g[len(g)-1]["why"].(string); strings.HasPrefix(why, "panic") {
-					panicked = true
+	{
+		var rwg sync.WaitGroup
+		rsem := make(chan struct{}, max(2, runtime.NumCPU()/2))
+		var rmu sync.Mutex
+		for _, p := range progs {
+			rwg.Add(1)
+			rsem <- struct{}{}
+			go func(p string) {
+				defer rwg.Done()
+				defer func() { <-rsem }()
+				c, cerr := jqrun.GojqCompile(p)
+				if c == nil {
+					for _, i := range byProg[p] {
+						ws[i].ev["gj_compile"] = cerr
+					}
+					return
 				}
-			}
+				// a Go panic or a timeout of the bare engine: recorded, not judged; fq would only repeat it
+				broken := false
+				for _, i := range byProg[p] {
+					runRef(ws[i], c)
+					if g := ws[i].ev["gj"].([]jqrun.Outcome); len(g) > 0 && g[len(g)-1]["k"] == "x" {
+						broken = true
+						if why, _ := g[len(g)-1]["why"].(string); strings.HasPrefix(why, "panic") {
+							ws[i].ev["engine_panic"] = true
+						}
+						break
+					}
+				}
+				rmu.Lock()
+				defer rmu.Unlock()
+				if broken {
+					for _, i := range byProg[p] {
+						if _, ok := ws[i].ev["gj"]; !ok {
+							ws[i].ev["gj"] = []jqrun.Outcome{{"k": "x", "why": "not run"}}
+							ws[i].ev["gj_side"] = []any{}
+							ws[i].ev["gj_stderr"] = []int{}
+						}
+					}
+					skip[p] = true
+					return
+				}
+				compiled[p] = c
+			}(p)
 		}
-		if panicked {
-			for _, i := range byProg[p] {
-				ws[i].ev["engine_panic"] = true
+		rwg.Wait()
+		for _, p := range progs {
+			if compiled[p] != nil && !inputRe.MatchString(p) {
+				batchable = append(batchable, p)
 			}
-			compiled[p] = nil
-			delete(compiled, p)
-			skip[p] = true
-			continue
-		}
-		if !inputRe.MatchString(p) {
-			batchable = append(batchable, p)
 		}
 	}
 	// fq, batch arm
